@@ -2,7 +2,7 @@
    S_* = specification, M_* = implementation model (SF/Equal.v); c10_* = constants re-extracted
    from the source on every run (Gen/Gen_c10.v). *)
 Require Import SF.Prelude SF.Dtype SF.Value SF.Equal Gen.Gen_c10.
-Require Import Proofs.EqualSpec Proofs.EqualRefine Proofs.EqualBlocks Proofs.EqualHE.
+Require Import Proofs.EqualSpec Proofs.EqualRefine Proofs.EqualBlocks Proofs.EqualHE Proofs.EqualFuel.
 
 (* equals is symmetric: every kind of container, every option setting *)
 Theorem C10_equals_sym : forall o,
@@ -216,6 +216,41 @@ Theorem C10_equals_decisions_in_source :
      "return True"]%string.
 Proof. exact (conj eq_refl (conj eq_refl (conj eq_refl eq_refl))). Qed.
 Print Assumptions C10_equals_decisions_in_source.
+
+(* Bus.equals and IndexLevel.equals of the source: their top-level decisions in order, the body of the walk loop included
+   (M_bus_equals, M_level_equals / M_level_walk follow them; re-extracted on every run) *)
+Theorem C10_bus_level_decisions_in_source :
+  c10_bus_equals_steps =
+    ["if id(other) == id(self)";
+     "if compare_class and self.__class__ != other.__class__ | elif not isinstance(other, Bus)";
+     "if len(self._series) != len(other._series)";
+     "if compare_name and self._series._name != other._series._name";
+     "if not self._series.index.equals(other._series.index, compare_name=compare_name, compare_dtype=compare_dtype, compare_class=compare_class, skipna=skipna)";
+     "for ((_, frame_self), (_, frame_other)) in zip(self.items(), other.items()): if not frame_self.equals(frame_other, compare_name=compare_name, compare_dtype=compare_dtype, compare_class=compare_class, skipna=skipna)";
+     "return True"]%string /\
+  c10_level_equals_steps =
+    ["if id(other) == id(self)";
+     "if compare_class and self.__class__ != other.__class__ | elif not isinstance(other, IndexLevel)";
+     "if self.__len__() != other.__len__()";
+     "if self.depth != other.depth";
+     "Assign: kwargs = dict(compare_name=compare_name, compare_dtype=compare_dtype, compare_class=compare_class, skipna=skipna)";
+     "if (self.targets is None or len(self.targets) == 0) and (other.targets is None or len(other.targets) == 0)";
+     "Assign: equal_pairs = set()";
+     "Assign: levels_self = [self]";
+     "Assign: levels_other = [other]";
+     "while levels_self and levels_other: level_self = levels_self.pop() ; level_other = levels_other.pop() ; pair = (id(level_self.index), id(level_other.index)) ; pair_found = pair in equal_pairs ; if not pair_found and (not level_self.index.equals(level_other.index, **kwargs)) ; if not pair_found ; if level_self.targets is not None and level_other.targets is not None ; if level_self.targets is None and level_other.targets is None ; if level_self.targets is None or level_other.targets is None";
+     "if not levels_self and (not levels_other)";
+     "return False"]%string.
+Proof. exact (conj eq_refl eq_refl). Qed.
+Print Assumptions C10_bus_level_decisions_in_source.
+
+(* the model of the IndexLevel.equals tree walk recurses on fuel; the fuel it is given always suffices: for every pair of
+   trees (any shape, any depth) the model answers a Boolean, never Err "OutOfFuel" *)
+Theorem C10_level_walk_fuel_suffices : forall o,
+  (forall a b, exists r, M_level_equals c10_cfgs o a b = Ok r) /\
+  (forall a b, exists r, M_hier_equals c10_cfgs o a b = Ok r).
+Proof. exact (fun o => conj (level_equals_total c10_cfgs o) (hier_equals_total c10_cfgs o)). Qed.
+Print Assumptions C10_level_walk_fuel_suffices.
 
 (* HE variants: == is equals with the keyword constants of the source; it is symmetric; equal
    containers hash the same labels; the model of __hash__ hashes exactly that key *)
